@@ -253,24 +253,45 @@ func c16Run(it c16Item) error {
 		}
 	case "budget":
 		// "defaults to 200 attempts": a stream on which every candidate fails
-		// (rejected single attempts chained, see cell_test.go)
+		// A one-character recipe: an attempt is one choice, whatever the
+		// implementation, so attempts can be counted in draws without touching
+		// the budget knobs. f = the choice that fails, g = the one that succeeds.
 		if spg.MaxTrials != 200 {
 			return fmt.Errorf("MaxTrials defaults to %d, documented 200", spg.MaxTrials)
 		}
-		r := spg.CharRecipe{Length: 2, AllowChars: "ab", RequireSets: []string{"b"}}
-		ref, err := findRef(r, 3, 400)
-		if err != nil {
-			return err
+		r := spg.CharRecipe{Length: 1, AllowChars: "ab", RequireSets: []string{"b"}}
+		f, g := -1, -1
+		for j := 0; j < 2; j++ {
+			jj := uint32(j)
+			o := callForced(nil, func(int, uint32) uint32 { return jj }, 3, r.Generate)
+			if e := o.S.IndexLevelOK(); e != nil {
+				return &ev.Inc{Why: e.Error()}
+			}
+			if o.Panic != nil {
+				return fmt.Errorf("Generate panicked: %v", o.Panic)
+			}
+			if o.Pw != nil && len(o.S.Draws) == 1 {
+				g = j
+			} else if o.Pw == nil {
+				f = j
+			}
 		}
-		rej, err := findRejectedAttempt(r, 3, 400)
-		if err != nil {
-			return err
+		if f < 0 || g < 0 {
+			return &ev.Inc{Why: "no constant failing / succeeding choice found for the one-character recipe"}
 		}
-		if rej == nil {
-			return &ev.Inc{Why: "no failing candidate found"}
+		run := func(nFail int) outcome {
+			return callForced(nil, func(k int, n uint32) uint32 {
+				if k < nFail {
+					return uint32(f)
+				}
+				return uint32(g)
+			}, 3, r.Generate)
 		}
-		if err := budgetCheck(r, ref, [][]uint32{rej}); err != nil {
-			return fmt.Errorf("the retry budget is documented as 200 attempts: %w", err)
+		if o := run(199); o.Pw == nil || len(o.S.Draws) != 200 {
+			return fmt.Errorf("the retry budget is documented as 200 attempts: after 199 failed attempts of a one-character recipe the 200th (a valid candidate) was not returned (password %v, err %v, %d draws)", o.Pw, o.Err, len(o.S.Draws))
+		}
+		if o := run(200); o.Pw != nil || o.Err == nil || len(o.S.Draws) != 200 {
+			return fmt.Errorf("the retry budget is documented as 200 attempts: after 200 failed attempts of a one-character recipe Generate returned %v, %v after %d draws", o.Pw, o.Err, len(o.S.Draws))
 		}
 	case "tolerance":
 		// "a tolerated overall failure probability of 1e-9 with 200 attempts":
